@@ -126,8 +126,13 @@ impl<'a> SendTransactionsProofProcess<'a> {
             // Check extra hash for blocks
             let is_v1 = self.message.count_extra_fields() >= 2;
             let extensions = if is_v1 {
-                let message_v1 =
-                    packed::SendTransactionsProofV1Reader::new_unchecked(self.message.as_slice());
+                // Only the fields of the old version are verified when the message is received.
+                let message_v1 = match packed::SendTransactionsProofV1Reader::from_compatible_slice(
+                    self.message.as_slice(),
+                ) {
+                    Ok(message_v1) => message_v1,
+                    Err(_) => return StatusCode::MalformedProtocolMessage.into(),
+                };
                 let uncle_hashes: Vec<_> = message_v1
                     .blocks_uncles_hash()
                     .iter()
